@@ -110,7 +110,12 @@ def install_seams(jit):
 # ----------------------------------------------------------------------------
 # module-level state snapshot
 # ----------------------------------------------------------------------------
-STATE_MODULES = ["uxarray.conventions.ugrid", "uxarray.conventions.descriptors", "uxarray.constants"]
+STATE_MODULES = [
+    "uxarray.conventions.ugrid", "uxarray.conventions.descriptors", "uxarray.constants",
+    "uxarray.grid.geometry", "uxarray.core.aggregation",
+]
+# names re-exported into those modules that are not uxarray's own constants
+STATE_SKIP = {"OPTIONS"}
 
 
 def _containers():
@@ -120,9 +125,9 @@ def _containers():
         if mod is None:
             continue
         for k, v in sorted(vars(mod).items()):
-            if k.startswith("__"):
+            if k.startswith("__") or k in STATE_SKIP:
                 continue
-            if isinstance(v, (dict, list, set, tuple, str, int, float, bool, np.generic)) or v is None:
+            if isinstance(v, (dict, list, set, tuple, str, int, float, bool, np.generic, np.ndarray)) or v is None:
                 out[f"{mn.split('uxarray.')[1]}.{k}"] = v
     return out
 
@@ -193,6 +198,8 @@ class ModuleState:
             elif isinstance(v, set):
                 v.clear()
                 v.update(was)
+            elif isinstance(v, np.ndarray) and v.flags.writeable:
+                v[...] = was
 
 
 # ----------------------------------------------------------------------------
